@@ -173,4 +173,133 @@ theorem toM_xsMat_none (Z : ℕ) (hZ1 : 1 ≤ Z) (hZ : Z ≤ 105) (j E : ℝ) :
 
 -- non-vacuity: the hypotheses are met by argon at 5 keV, 100 A/cm²
 example : (1 ≤ 18 ∧ 18 ≤ 105) ∧ (0 : ℝ) ≤ 100 ∧ (0 : ℝ) < 5000 := by norm_num
+/-! ## exact column sums in binary64 (any scalar arithmetic), every size -/
+
+section Exact
+open Xs Num
+
+variable {α : Type} [Num α]
+
+/-- the scalar facts used: `0 + 0 = 0`, `0 − 0 = 0` and, for the one entry pair of a column, `(0 + (0 − x)) + (x − 0) = 0`
+(all three hold in IEEE-754 binary64 for every finite `x`, in every rounding mode that is not toward −∞) -/
+structure ScalarFacts (x : α) : Prop where
+  zz_add : (lit 0 + lit 0 : α) = lit 0
+  zz_sub : (lit 0 - lit 0 : α) = lit 0
+  pair : (lit 0 + (lit 0 - x)) + (x - lit 0) = (lit 0 : α)
+
+/-- column `j` of the ionisation matrix `diag(xs[:-1], −1) − diag(xs)` summed top to bottom (`np.sum(·, axis=0)` order) from `0` -/
+def eiColSum (x : α) (n j : Nat) : α :=
+  ((List.range n).map fun i => (if i = j + 1 then x else lit 0) - (if i = j then x else lit 0)).foldl (· + ·) (lit 0)
+
+theorem foldl_range'_inv (x : α) (j : Nat) (h : ScalarFacts x) : ∀ (m k : Nat) (acc : α),
+    ((k ≤ j → acc = lit 0) ∧ (k = j + 1 → acc = lit 0 + (lit 0 - x)) ∧ (j + 2 ≤ k → acc = lit 0)) →
+    let r := ((List.range' k m).map fun i => (if i = j + 1 then x else lit 0) - (if i = j then x else lit 0)).foldl (· + ·) acc
+    ((k + m ≤ j → r = lit 0) ∧ (k + m = j + 1 → r = lit 0 + (lit 0 - x)) ∧ (j + 2 ≤ k + m → r = lit 0)) := by
+  intro m
+  induction m with
+  | zero => intro k acc hinv; simpa using hinv
+  | succ m ih =>
+    intro k acc hinv
+    simp only [List.range'_succ, List.map_cons, List.foldl_cons]
+    have hstep : ((k + 1 ≤ j → acc + ((if k = j + 1 then x else lit 0) - (if k = j then x else lit 0)) = lit 0) ∧
+        (k + 1 = j + 1 → acc + ((if k = j + 1 then x else lit 0) - (if k = j then x else lit 0)) = lit 0 + (lit 0 - x)) ∧
+        (j + 2 ≤ k + 1 → acc + ((if k = j + 1 then x else lit 0) - (if k = j then x else lit 0)) = lit 0)) := by
+      obtain ⟨h1, h2, h3⟩ := hinv
+      refine ⟨?_, ?_, ?_⟩
+      · intro hk
+        have e1 : ¬ k = j + 1 := by omega
+        have e2 : ¬ k = j := by omega
+        rw [h1 (by omega), if_neg e1, if_neg e2, h.zz_sub, h.zz_add]
+      · intro hk
+        have e1 : ¬ k = j + 1 := by omega
+        have e2 : k = j := by omega
+        rw [h1 (by omega), if_neg e1, if_pos e2]
+      · intro hk
+        by_cases e : k = j + 1
+        · have e2 : ¬ k = j := by omega
+          rw [h2 e, if_pos e, if_neg e2, h.pair]
+        · have e2 : ¬ k = j := by omega
+          rw [h3 (by omega), if_neg e, if_neg e2, h.zz_sub, h.zz_add]
+    have := ih (k + 1) _ hstep
+    simpa [Nat.add_assoc, Nat.add_comm 1 m] using this
+
+/-- **every interior column of the ionisation matrix sums to exactly `0` in the scalar arithmetic at hand** (any size `n`, any column
+`j` with `j + 1 < n`), given the three scalar facts about the column's one cross section -/
+theorem eiColSum_exact (x : α) (n j : Nat) (hj : j + 1 < n) (h : ScalarFacts x) : eiColSum x n j = lit 0 := by
+  unfold eiColSum
+  rw [List.range_eq_range']
+  have := foldl_range'_inv x j h n 0 (lit 0) ⟨fun _ => rfl, fun h0 => by omega, fun h0 => by omega⟩
+  exact this.2.2 (by omega)
+
+/-- the column of the model matrix `Xs.eiMat xs` is the list `eiColSum` sums -/
+theorem eiMat_column (xs : List α) (j : Nat) (hj : j < xs.length) :
+    (eiMat xs).map (fun row => row.getD j (lit 0)) =
+      (List.range xs.length).map fun i => (if i = j + 1 then xs.getD j (lit 0) else lit 0) - (if i = j then xs.getD j (lit 0) else lit 0) := by
+  unfold eiMat
+  rw [List.map_map]
+  apply List.map_congr_left
+  intro i _
+  simp [List.getD_eq_getElem?_getD, hj]
+
+/-- **columns of `eixs_mat` sum to exactly zero in binary64 (or any scalar arithmetic with the three facts)**: summing column `j`
+(`j + 1 < n`) of the model matrix top to bottom gives exactly `0` -/
+theorem eiMat_colsum_exact (xs : List α) (j : Nat) (hj : j + 1 < xs.length) (h : ScalarFacts (xs.getD j (lit 0))) :
+    ((eiMat xs).map fun row => row.getD j (lit 0)).foldl (· + ·) (lit 0) = lit 0 := by
+  rw [eiMat_column xs j (by omega)]
+  exact eiColSum_exact _ _ j hj h
+
+/-- recombination: the pair appears in the order `x − 0` (row `j − 1`), `0 − x` (row `j`) -/
+structure ScalarFactsRec (x : α) : Prop where
+  zz_add : (lit 0 + lit 0 : α) = lit 0
+  zz_sub : (lit 0 - lit 0 : α) = lit 0
+  pair : (lit 0 + (x - lit 0)) + (lit 0 - x) = (lit 0 : α)
+
+theorem foldl_range'_inv_rec (x : α) (j : Nat) (h : ScalarFactsRec x) : ∀ (m k : Nat) (acc : α),
+    ((k ≤ j → acc = lit 0) ∧ (k = j + 1 → acc = lit 0 + (x - lit 0)) ∧ (j + 2 ≤ k → acc = lit 0)) →
+    let r := ((List.range' k m).map fun i => (if i + 1 = j + 1 then x else lit 0) - (if i = j + 1 then x else lit 0)).foldl (· + ·) acc
+    ((k + m ≤ j → r = lit 0) ∧ (k + m = j + 1 → r = lit 0 + (x - lit 0)) ∧ (j + 2 ≤ k + m → r = lit 0)) := by
+  intro m
+  induction m with
+  | zero => intro k acc hinv; simpa using hinv
+  | succ m ih =>
+    intro k acc hinv
+    simp only [List.range'_succ, List.map_cons, List.foldl_cons]
+    have hstep : ((k + 1 ≤ j → acc + ((if k + 1 = j + 1 then x else lit 0) - (if k = j + 1 then x else lit 0)) = lit 0) ∧
+        (k + 1 = j + 1 → acc + ((if k + 1 = j + 1 then x else lit 0) - (if k = j + 1 then x else lit 0)) = lit 0 + (x - lit 0)) ∧
+        (j + 2 ≤ k + 1 → acc + ((if k + 1 = j + 1 then x else lit 0) - (if k = j + 1 then x else lit 0)) = lit 0)) := by
+      obtain ⟨h1, h2, h3⟩ := hinv
+      refine ⟨?_, ?_, ?_⟩
+      · intro hk
+        have e1 : ¬ k + 1 = j + 1 := by omega
+        have e2 : ¬ k = j + 1 := by omega
+        rw [h1 (by omega), if_neg e1, if_neg e2, h.zz_sub, h.zz_add]
+      · intro hk
+        have e1 : k + 1 = j + 1 := hk
+        have e2 : ¬ k = j + 1 := by omega
+        rw [h1 (by omega), if_pos e1, if_neg e2]
+      · intro hk
+        by_cases e : k = j + 1
+        · have e1 : ¬ k + 1 = j + 1 := by omega
+          rw [h2 e, if_neg e1, if_pos e, h.pair]
+        · have e1 : ¬ k + 1 = j + 1 := by omega
+          rw [h3 (by omega), if_neg e1, if_neg e, h.zz_sub, h.zz_add]
+    have := ih (k + 1) _ hstep
+    simpa [Nat.add_assoc, Nat.add_comm 1 m] using this
+
+/-- **columns `1 … n−1` of `rrxs_mat` / `drxs_mat` sum to exactly zero** in the scalar arithmetic at hand (column index `j + 1`) -/
+theorem recMat_colsum_exact (xs : List α) (j : Nat) (hj : j + 1 < xs.length) (h : ScalarFactsRec (xs.getD (j + 1) (lit 0))) :
+    ((recMat xs).map fun row => row.getD (j + 1) (lit 0)).foldl (· + ·) (lit 0) = lit 0 := by
+  have hcol : (recMat xs).map (fun row => row.getD (j + 1) (lit 0)) =
+      (List.range xs.length).map fun i => (if i + 1 = j + 1 then xs.getD (j + 1) (lit 0) else lit 0) - (if i = j + 1 then xs.getD (j + 1) (lit 0) else lit 0) := by
+    unfold recMat
+    rw [List.map_map]
+    apply List.map_congr_left
+    intro i _
+    simp [List.getD_eq_getElem?_getD, hj]
+  rw [hcol, List.range_eq_range']
+  have := foldl_range'_inv_rec (xs.getD (j + 1) (lit 0)) j h xs.length 0 (lit 0) ⟨fun _ => rfl, fun h0 => by omega, fun h0 => by omega⟩
+  exact this.2.2 (by omega)
+
+end Exact
+
 end C02
